@@ -96,7 +96,7 @@ def _run_one(args):
     tmp = tempfile.mkdtemp(prefix='verif-sa-%d-' % os.getpid())
     try:
         try:
-            dst = _prepare(root, tmp, variant)
+            dst = _prepare_auto(root, tmp, variant) if 'auto' in variant else _prepare(root, tmp, variant)
         except SyntaxError as e:
             return dict(variant, verdict='broken-variant', detail='edited file does not compile: %s' % e)
         if dst is None:
@@ -120,6 +120,40 @@ def _run_one(args):
         shutil.rmtree(tmp, ignore_errors=True)
 
 
+def _prepare_auto(root, tmp, variant):
+    from .autotwin import edit
+    dst = os.path.join(tmp, 'repo')
+    shutil.copytree(os.path.join(root, 'jedi'), os.path.join(dst, 'jedi'), ignore=shutil.ignore_patterns('__pycache__', 'third_party'))
+    mod, qual, how = variant['auto']
+    rel = mod.replace('.', '/')
+    path = os.path.join(dst, rel + '.py')
+    if not os.path.exists(path):
+        path = os.path.join(dst, rel, '__init__.py')
+    with open(path) as f:
+        src = f.read()
+    new = edit(src, qual, how)
+    if new is None:
+        return None
+    compile(new, path, 'exec')
+    with open(path, 'w') as f:
+        f.write(new)
+    return dst
+
+
+def auto_twins(prop, funcs, cap=60):
+    """a deterministic sample of automatic silent twins for the functions the property's rules put obligations on"""
+    import hashlib
+    jobs = []
+    for mod, qual in sorted(funcs):
+        if qual == '<module>':
+            continue
+        for how in ('pass', 'tmpret', 'ifswap', 'doc'):
+            jobs.append((hashlib.sha256(('%s|%s|%s|%s' % (prop, mod, qual, how)).encode()).hexdigest(), mod, qual, how))
+    jobs.sort()
+    return [{'prop': prop, 'kind': 'S', 'name': 'auto:%s:%s:%s' % (how, mod.split('.')[-1], qual), 'auto': (mod, qual, how), 'rule': None}
+            for _, mod, qual, how in jobs[:cap * 3]], cap
+
+
 def variants_for(prop):
     from .variants import VARIANTS
     out = [dict(v) for v in VARIANTS if v['prop'] == prop]
@@ -131,14 +165,22 @@ def variants_for(prop):
     return out
 
 
-def run_for(prop, root, jobs=None):
+def run_for(prop, root, jobs=None, funcs=None):
     vs = variants_for(prop)
+    n_auto_cap = 0
+    if funcs:
+        av, n_auto_cap = auto_twins(prop, funcs)
+        vs = vs + av
     jobs = jobs or min(16, max(1, len(vs)))
     res = []
     if vs:
         with ProcessPoolExecutor(jobs) as ex:
             res = list(ex.map(_run_one, [(root, v) for v in vs]))
-    summary = {'variants': len(res),
+    # automatic twins: the sample is three times the cap because many edits do not apply to a given function; count the applicable ones
+    auto = [r for r in res if 'auto' in r]
+    auto_ok = [r for r in auto if r['verdict'] == 'ok']
+    res = [r for r in res if 'auto' not in r or r['verdict'] not in ('inapplicable',)]
+    summary = {'variants': len(res), 'automatic_twins_silent': len(auto_ok),
                'breaking_fired': sum(1 for r in res if r['kind'] == 'B' and r['verdict'] == 'ok'),
                'twins_silent': sum(1 for r in res if r['kind'] == 'S' and r['verdict'] == 'ok'),
                'inapplicable': sum(1 for r in res if r['verdict'] == 'inapplicable'),
